@@ -76,7 +76,11 @@ def parse_twitter_url(url):
     if not is_twitter_url(url):
         return None
 
-    parsed = safe_urlsplit(url)
+    try:
+        parsed = safe_urlsplit(url)
+    except ValueError:
+        return None
+
     path = pathsplit(parsed.path)
 
     if path:
